@@ -105,7 +105,9 @@ def stepPI (s : LState) (inner tail : Bytes) : Step :=
 
 /-- `<!-- … -->`; `innerLen` = number of bytes between `<` and the first `>` -/
 def stepComment (s : LState) (innerLen : Nat) : Step :=
-  match findCommentEnd s.rest 0 (innerLen + 1) with
+  -- the search starts at the first `>`, but not before offset 6: the closing `-->` cannot overlap the opening `<!--`
+  -- (repaired defect c01:comment-starting-with-gt; before, `<!-->-->` was an invalid comment)
+  match findCommentEnd s.rest 0 (max (innerLen + 1) 6) with
   | none => .err s.line .invalidComment s
   | some ce =>
     if (s.rest.take ce).length < 6 ∨ !startsWith [60, 33, 45, 45] (s.rest.take ce) ∨ !endsWith [45, 45] (s.rest.take ce) then
